@@ -350,6 +350,7 @@ def main():
     for ln in sorted(set(known_lines)):
         print(ln)
 
+    covers = sum((kani_res.get(h) or {}).get('covers_satisfied', 0) for h in harnesses)
     wall = time.time() - t0
     n_known = sum(1 for v in violations if v.get('known_finding'))
     # obligations covered by a listed known finding are reported separately, not as discharged
@@ -375,9 +376,12 @@ def main():
             'undischarged_known_findings': sorted(set(v['known_finding'] + ': ' + v['obligation'] for v in violations if v.get('known_finding'))),
             'functions_under_contract': sorted(set(contracted)),
             'samples': samples or [{'note': 'no obligation discharged'}],
-            'evaluations': max(obligations, 1),
-            'distinct_nontrivial': max(fn_total + len([h for h in harnesses if h in kani_res]), 2),
-            'rule': 'one evaluation = one proof obligation bundle: a Verus function query (all requires/ensures/'
+            'evaluations': max(obligations, 1) if level != 'fault_enumeration' else max(covers, 1),
+            'distinct_nontrivial': max(fn_total + len([h for h in harnesses if h in kani_res]), 2) if level != 'fault_enumeration' else max(covers, 2),
+            'fault_points_reached': covers,
+            'rule': ('fault_enumeration: one evaluation = one (driver, fault point) pair shown reachable by a kani::cover in this run '
+                     '(fault point = k-th dma_alloc fails / no failure / failure for another reason); all are distinct and non-trivial. ' if level == 'fault_enumeration' else '') +
+                    'one evaluation = one proof obligation bundle: a Verus function query (all requires/ensures/'
                     'invariant/overflow/bounds clauses of one extracted function) or one CBMC check of a Kani harness; '
                     'distinct_nontrivial counts distinct functions/harnesses, all of which have non-trivial bodies',
             'rewrite_rule_matches': {r['unit']: r['info']['rules'] for r in verus_results},
